@@ -44,7 +44,7 @@ class Monitor:
         self.present_pool = [u for u in cfg.get("present", [2, 254]) if not (u == 0 and self.version is None)]
 
     def events(self) -> list:
-        evs = [["idreq", 255, 255], ["idreq", 255, 7]]
+        evs = [["idreq", 255, 255], ["idreq", 255, 7], ["idreq-delivered-then-error", 255, 255]]
         reg = sorted(self.s.gateway.nodes)
         top = reg[-1] if reg else 0
         # a request that carries a registered node's own id (a node asking for a new id), asleep or not
@@ -76,7 +76,25 @@ class Monitor:
 
         before = set(gw.nodes)
         before_canon = canon_nodes(gw.nodes)
-        if ev[0] == "idreq":
+        if ev[0] == "idreq-delivered-then-error":
+            # the answer reaches the node, then the transport reports an error: that id IS handed out
+            s.transport.fail_writes = 1
+            s.transport.fail_after_delivery = True
+            out = s.line(f"{ev[1]};{ev[2]};3;0;3;")
+            s.transport.fail_writes = 0
+            s.transport.fail_after_delivery = False
+            self.last_desc = out.describe()
+            self.nontrivial = True
+            for w in out.writes:
+                f = w.rstrip("\n").split(";", 5)
+                if f[2] == "3" and f[4] == "4" and R.PLAIN_INT.match(f[5]):
+                    nid = int(f[5])
+                    if nid in before:
+                        bad("id-not-fresh", f"id {nid} was already in the registry")
+                    if nid in self.handed:
+                        bad("id-handed-twice", f"id {nid} handed out twice")
+                    self.handed.append(nid)
+        elif ev[0] == "idreq":
             rn, rc = ev[1], ev[2]
             seen_at_write = []
 
